@@ -926,6 +926,25 @@ func (tb *l1Table) memGroupsMerged() error {
 	return nil
 }
 
+// boundarySeries returns the last series of the first primary block of the part with the most
+// primary blocks (0 if no part has two).
+func (tb *l1Table) boundarySeries() int {
+	s := tb.tst.currentSnapshot()
+	if s == nil {
+		return 0
+	}
+	defer s.decRef()
+	best := 0
+	for _, pw := range s.parts {
+		if n := len(pw.p.primaryBlockMetadata); n >= 2 && n > best {
+			best = n
+			first := int(pw.p.primaryBlockMetadata[1].seriesID)
+			return first - 1
+		}
+	}
+	return 0
+}
+
 func (tb *l1Table) primaryBlocks() int {
 	s := tb.tst.currentSnapshot()
 	if s == nil {
